@@ -398,7 +398,18 @@ def check_adapters(adapter: int, ek: int, name: int, x: int) -> bool:
     return h.ok(ad() is el)
 
 
+# ---------------------------------------------------------------- engine R
+# the drivers over symbolic real flows (harness/c05_real.py)
+
+def real_drivers(budget):
+    from harness import c05_real as cr
+    cases = cr.cases(h.TIER)
+    mine = [c for i, c in enumerate(cases) if i % h.SHARD_N == h.SHARD_I]
+    return cr.run_cases("drivers", mine, budget)
+
+
 CONDITIONS = [
+    dict(fn="real_drivers", custom=True, shards=(2, 4), budget=(60, 600)),
     dict(fn="check_three_drivers", shards=(72, 150), budget=(150, 1200),
          smoke=["check_three_drivers(1, 3, 0, 1, 2, 1, 0, True, 2, [1, 2, 3])",
                 "check_three_drivers(1, 1, 0, 0, 0, 1, 2, False, 1, [4, 5])",
